@@ -52,7 +52,7 @@ func init() {
 
 func c06Workloads() []Workload {
 	wls := workloads(false)
-	return []Workload{wls[0], wls[1], wls[2], wls[4], wls[5], wls[7], wls[6]}
+	return []Workload{wls[0], wls[1], wls[2], wls[4], wls[5], wls[7], wls[6], wls[8], wls[9]}
 }
 
 func faultPhase(f faultSpec, fileSeqOfFirst string) string {
@@ -178,7 +178,7 @@ func c06One(wl Workload, f faultSpec, res *c06Res) {
 	defer w.Teardown()
 	res.Plans++
 	if infra != "" && viol == nil {
-		if strings.Contains(infra, "not enabled") || strings.Contains(infra, "open failed") {
+		if strings.Contains(infra, "not enabled") || strings.Contains(infra, "open failed") || infra == "stop" {
 			// the fault hit an operation of opening / reopening the store: outside this property's alphabet
 			res.Outcomes["fault-in-open-skipped"]++
 			return
@@ -317,10 +317,10 @@ func checkC06(prop, tier string) int {
 func runFaultPlans(tier string, only []int) (fr faultRun) {
 	pool := NewPool()
 	wls := c06Workloads()
-	use := []int{0, 1, 2, 4, 5}
+	use := []int{0, 1, 2, 4, 5, 7}
 	counts := []int{1}
 	if tier == "thorough" {
-		use = []int{0, 1, 2, 3, 4, 5, 6}
+		use = []int{0, 1, 2, 3, 4, 5, 6, 7, 8}
 		counts = []int{1, 2, 3, -1}
 	}
 	if only != nil {
